@@ -51,7 +51,7 @@ ASI = z3.ArraySort(T.S, T.I)
 
 ENV_KEYS = {'fs_exists': T.ASB, 'fs_content': ASC, 'fs_stamp': ASI,
             'pyc_exists': T.ASB, 'pyc_code': ASC, 'pyc_stamp': ASI,
-            'mod_loaded': T.ASB, 'mod_ref': ASI}
+            'mod_loaded': T.ASB, 'mod_ref': ASI, 'dir_exists': T.ASB}
 
 
 class VArr(V):
@@ -135,13 +135,15 @@ def m_env_interfere(self, st):
     self.used_assumptions.add('RELY (concurrency over-approximation): between any two environment operations of this function other processes may change '
                               'files, bytecode and stamps in any way that keeps the rely condition true, never delete a module file, and never touch a temporary '
                               'file created by this process; sys.modules belongs to this process')
-    old = {k: env_get(st, k) for k in ('fs_exists', 'fs_content', 'fs_stamp', 'pyc_exists', 'pyc_code', 'pyc_stamp')}
+    old = {k: env_get(st, k) for k in ('fs_exists', 'fs_content', 'fs_stamp', 'pyc_exists', 'pyc_code', 'pyc_stamp', 'dir_exists')}
     for k in old:
         env_set(st, k, fresh('env_' + k, ENV_KEYS[k]))
     p = z3.String('p!rely')
     ne = env_get(st, 'fs_exists')
     st.assume(z3.ForAll([p], z3.Implies(z3.And(z3.Select(old['fs_exists'], p), z3.Not(is_tmp_path(p))), z3.Select(ne, p)),
                         patterns=[z3.Select(ne, p)]))
+    nd = env_get(st, 'dir_exists')         # directories only appear (the cache folder is never removed)
+    st.assume(z3.ForAll([p], z3.Implies(z3.Select(old['dir_exists'], p), z3.Select(nd, p)), patterns=[z3.Select(nd, p)]))
     for t in st.ghost.get('env.own_tmp', VTuple([])).items:
         for k in ('fs_exists', 'fs_content', 'fs_stamp'):
             st.assume(z3.Select(env_get(st, k), t.z) == z3.Select(old[k], t.z))
@@ -220,7 +222,24 @@ def m_bi_os_remove(self, st, pos, kws, k):
 
 
 def m_bi_os_makedirs(self, st, pos, kws, k):
-    return k(st, VNone())
+    """os.makedirs(p, exist_ok=...): the directory exists afterwards; without exist_ok an existing directory is an error
+    (another process may have created it since it was last looked at)"""
+    self.env_interfere(st)
+    p = self.as_str(pos[0])
+    eo = kws.get('exist_ok', pos[1] if len(pos) > 1 else VBool(False))
+    ok = self.truth(st, eo)
+    de = env_get(st, 'dir_exists')
+
+    def cont(st):
+        env_set(st, 'dir_exists', z3.Store(de, p, True))
+        return k(st, VNone())
+    return self.with_raises(st, [(z3.And(z3.Not(ok), z3.Select(de, p)), 'FileExistsError')], cont)
+
+
+def m_bi_os_path_isdir(self, st, pos, kws, k):
+    self.env_interfere(st)
+    p = self.as_str(pos[0])
+    return k(st, VBool(z3.Select(env_get(st, 'dir_exists'), p)))
 
 
 class VHAcc(V):
